@@ -14,7 +14,7 @@ PROP = 'C09'
 
 def build(c):
     c.derive_modules(lambda e: [v for v in e['variants'] if v in ('base', 'rust')] + ['opts'])
-    c.add_relational_harnesses(PROP, lambda e: [('base', 'rust'), ('base', 'opts')])
+    c.add_relational_harnesses(PROP, lambda e: [('base', 'rust')] + ([('base', 'opts')] if (e.get('scalars') or c.tier == 'thorough') else []))
 
 
 def main():
